@@ -11,7 +11,6 @@ Inductive layout := LInternal | LExternal | LAdjacent (t c : string).
 Inductive fmt := FStruct | FTuple.
 
 (* conditions (pane.annotations) *)
-Inductive adj := APositive | ANegative | ANonPositive | ANonNegative | AFinite | AEmpty | ANonEmpty.
 Inductive cond :=
 | CAdj (a : adj)
 | CValRange (lo hi : option Z)
